@@ -462,6 +462,94 @@ func checkC11(c *run.Ctx) {
 				}
 				c11Eval(c, run.CaseID("rnd", i), ms, perm, step, how, t%4 == 0)
 			}
+			// One Matrix object (and its MatrixAdjustment objects) edited in place between validations: the decision
+			// follows the matrix as it is now, whatever was validated on the same objects before.
+			if i%4 == 0 {
+				cur := refmodel.MatrixSpec{Dims: append([]string{}, ms.Dims...), Values: map[string][]string{}}
+				for d, vs := range ms.Values {
+					cur.Values[d] = append([]string{}, vs...)
+				}
+				for _, a := range ms.Adjs {
+					w := map[string]string{}
+					for k, v := range a.With {
+						w[k] = v
+					}
+					cur.Adjs = append(cur.Adjs, refmodel.AdjSpec{With: w, Skip: a.Skip})
+				}
+				mx := buildMatrix(cur)
+				tuple := func() map[string]string {
+					t := map[string]string{}
+					for _, d := range cur.Dims {
+						if vs := cur.Values[d]; len(vs) > 0 && r.IntN(4) != 0 {
+							t[d] = vs[r.IntN(len(vs))]
+						} else {
+							t[d] = pool[r.IntN(len(pool))]
+						}
+					}
+					return t
+				}
+				evalNow := func() {
+					for t := 0; t < 3; t++ {
+						perm := tuple()
+						if len(cur.Adjs) > 0 && r.IntN(2) == 0 {
+							perm = map[string]string{}
+							for k, v := range cur.Adjs[r.IntN(len(cur.Adjs))].With {
+								perm[k] = v
+							}
+						}
+						c11Eval(c, run.CaseID("rnd", i), cur, perm, &pipeline.CommandStep{Command: "no tokens", Label: "l", Key: "k", Matrix: mx}, "literal, same objects edited in place between validations", false)
+					}
+				}
+				evalNow()
+				for e := 0; e < 4; e++ {
+					switch op := r.IntN(6); {
+					case op == 0: // a new dimension: every existing adjustment now has the wrong set of dimensions
+						d := fmt.Sprintf("new%d", e)
+						cur.Dims = append(cur.Dims, d)
+						cur.Values[d] = []string{"x", "y"}
+						mx.Setup[d] = []string{"x", "y"}
+					case op == 1 && len(cur.Dims) > 0 && cur.Dims[0] != "": // a dimension renamed
+						j := r.IntN(len(cur.Dims))
+						old, nw := cur.Dims[j], fmt.Sprintf("ren%d", e)
+						cur.Dims[j] = nw
+						cur.Values[nw] = cur.Values[old]
+						delete(cur.Values, old)
+						mx.Setup[nw] = mx.Setup[old]
+						delete(mx.Setup, old)
+					case op == 2 && len(cur.Adjs) > 0: // an adjustment loses a dimension or gains an unknown one
+						j := r.IntN(len(cur.Adjs))
+						if r.IntN(2) == 0 && len(cur.Dims) > 0 {
+							d := cur.Dims[r.IntN(len(cur.Dims))]
+							delete(cur.Adjs[j].With, d)
+							delete(mx.Adjustments[j].With, d)
+						} else {
+							cur.Adjs[j].With["q"] = "x"
+							mx.Adjustments[j].With["q"] = "x"
+						}
+					case op == 3 && len(cur.Adjs) > 0: // an adjustment is repaired to the current dimensions
+						j := r.IntN(len(cur.Adjs))
+						w := tuple()
+						cur.Adjs[j].With = w
+						mx.Adjustments[j].With = pipeline.MatrixAdjustmentWith{}
+						for k, v := range w {
+							mx.Adjustments[j].With[k] = v
+						}
+					case op == 4 && len(cur.Adjs) > 0: // skip toggled
+						j := r.IntN(len(cur.Adjs))
+						sk := skips[r.IntN(len(skips))]
+						cur.Adjs[j].Skip = sk
+						mx.Adjustments[j].Skip = sk
+					default: // a value added to a dimension
+						if len(cur.Dims) > 0 {
+							d := cur.Dims[r.IntN(len(cur.Dims))]
+							cur.Values[d] = append(cur.Values[d], fmt.Sprintf("added%d", e))
+							mx.Setup[d] = append(mx.Setup[d], fmt.Sprintf("added%d", e))
+						}
+					}
+					c.Count("matrix_objects_edited_in_place_and_revalidated", 1)
+					evalNow()
+				}
+			}
 		})
 	})
 	c.Finish("exploration",
